@@ -10,6 +10,7 @@ import (
 	"crypto/x509/pkix"
 	"encoding/pem"
 	"fmt"
+	"io"
 	"math/big"
 	"net"
 	"os"
@@ -438,6 +439,39 @@ func TestC19(t *testing.T) {
 	}
 	cancel()
 	pp.Stop()
+	// --- real TCP listener for every server configuration in which TLS is switched on and verification is not switched off:
+	// a peer that speaks no TLS at all (plaintext HTTP/2) is never served, whichever parts of the TLS block are missing
+	for _, c := range cases {
+		cfg := k.config(c)
+		if c.skip || !cfg.IsEnabled() || c.caFile == "unreadable" || c.caFile == "noCACert" {
+			continue
+		}
+		pp2, err := startProxyPair(t, config.ClusterConnConfig{Remote: config.ClusterDefinition{TcpServer: config.TCPTLSInfo{TLSConfig: cfg}}})
+		op := fmt.Sprintf("# plaintext-peer %s", c.String())
+		if err != nil {
+			e.Emit(op+" (listener did not start)", "#")
+			e.Count("plaintext_listener_not_started")
+			continue
+		}
+		got := "refuse"
+		if raw, derr := net.DialTimeout("tcp", pp2.InboundAddr, 3*time.Second); derr == nil {
+			// HTTP/2 client preface + an empty SETTINGS frame; a server that serves plaintext answers with its own SETTINGS frame
+			_ = raw.SetDeadline(time.Now().Add(2 * time.Second))
+			_, _ = raw.Write([]byte("PRI * HTTP/2.0\r\n\r\nSM\r\n\r\n\x00\x00\x00\x04\x00\x00\x00\x00\x00"))
+			buf := make([]byte, 9)
+			if n, _ := io.ReadFull(raw, buf); n == 9 && buf[3] == 0x04 {
+				got = "admit"
+			}
+			_ = raw.Close()
+		}
+		e.Emit(op, "#")
+		e.Evals++
+		e.Count("plaintext_peer_" + got)
+		if got == "admit" {
+			viol(fmt.Sprintf("TCP listener with TLS configured (%s: own certificate=%v, CA file=%s, verification not switched off) serves a peer that speaks plaintext HTTP/2: no TLS, no certificate", c.String(), c.hasCert, c.caFile), op)
+		}
+		pp2.Stop()
+	}
 	e.Stats["exhaustive"] = true
 	e.Sample([]string{"srvadmit 1 1 good 0 selfSigned", "cliadmit 0 1 good 0 wrongName", "listener mux 1 1 good 0 otherCA"})
 	_ = strings.Join
